@@ -308,7 +308,7 @@ pub fn cli_images(args: &[String]) -> i32 {
     let b = Batch { seed, engine: ENGINE_IMAGES, runs, workers };
     let perm_fail: std::sync::Mutex<Option<(u64, u64, serde_json::Value)>> = std::sync::Mutex::new(None);
     let locals: Vec<ImgLocal> = batch::run_batch(&b, |k, rs, l: &mut ImgLocal| {
-        let w = threads::generate(rs);
+        let w = Workload { spec: threads::generate_big_spec(rs), hays: vec![], threads: vec![] };
         l.lines.push((k, format!("{k} {rs} {}\n", image_hash(&w.spec))));
         // permutation independence on the same spec (no schedule involved: plain seeded sampling)
         if w.spec.kind != crate::pma::Kind::LeftmostFirst && w.spec.patterns.len() > 1 {
@@ -353,8 +353,7 @@ pub fn cli_images(args: &[String]) -> i32 {
 /// `dsim image-of <run_seed>`: print the image hash of the automaton of that run seed.
 pub fn cli_image_of(args: &[String]) -> i32 {
     let rs: u64 = args.first().and_then(|s| s.parse().ok()).unwrap_or_else(|| harness_error("image-of: run seed required"));
-    let w = threads::generate(rs);
-    println!("{}", image_hash(&w.spec));
+    println!("{}", image_hash(&threads::generate_big_spec(rs)));
     0
 }
 
